@@ -29,6 +29,7 @@ def observe(lib, M) -> List[Dict[str, Any]]:
             d["dup"] = True
             d["dup_key"] = b.key
             d["dup_prev_held"] = any(x is b.previous_block for x in lib.blocks)
+            d["dup_prev_before"] = any(x is b.previous_block for x in lib.blocks[:len(out)])
             d["dup_same_key"] = getattr(b.previous_block, "key", None) == getattr(b.ignore_error_block, "key", None) == b.key
             inner = b.ignore_error_block
         if isinstance(inner, M.DuplicateFieldKeyBlock):
